@@ -6,7 +6,7 @@ CONSTANTS
   MaxSteps = 99
   UseRPs = {"cw", "cx", "cj", "cp"}
   Modes = {"query", "form_post"}
-  Ops = {"Start", "Authorize", "Login", "OPCallback", "RPCallback", "Userinfo", "Introspect", "Refresh", "Revoke", "Expire", "EndSession", "DeviceStart", "DeviceApprove", "DevicePoll", "TokenExchange"}
+  Ops = {"Start", "Authorize", "Login", "OPCallback", "RPCallback", "Userinfo", "Introspect", "Refresh", "Revoke", "Expire", "EndSession", "DeviceStart", "DeviceApprove", "DevicePoll", "TokenExchange", "ClientCreds"}
   Depth = 18
 INVARIANT Emit
 INVARIANT NoViolation
